@@ -2,10 +2,8 @@ package main
 
 import (
 	"fmt"
-	"os"
-	"runtime/pprof"
-	"time"
 
+	"github.com/polynetwork/poly/common/config"
 	_ "github.com/polynetwork/poly/native/service"
 	"github.com/polynetwork/poly/native/service/utils"
 	"verif.local/engine/lib/ccm"
@@ -14,32 +12,41 @@ import (
 
 func main() {
 	vals := polyenv.Keys(4)
-	polyenv.Setup(0, vals)
+	polyenv.Setup(config.NETWORK_ID_MAIN_NET, vals)
 	polyenv.InstallHeightLedger()
+	polyenv.GlobalHeight = 18823000
+	const H = 18823000
 	w := polyenv.NewWorld()
 	w.Genesis(vals)
-	ccm.Register(w, vals, ccm.SC{ID: 11, Router: utils.VOTE_ROUTER, Wait: 1, Name: "src", CCMC: []byte{1}}, -1, 1)
-	ccm.Register(w, vals, ccm.SC{ID: 12, Router: utils.VOTE_ROUTER, Wait: 1, Name: "dst", CCMC: []byte{2}}, -1, 1)
-	d := w.Dump()
-	fmt.Println("keys", len(d))
+	ccmc := make([]byte, 20)
+	ccmc[0] = 0xcc
+	ccm.Register(w, vals, ccm.SC{ID: 11, Router: utils.HSC_ROUTER, Wait: 1, Name: "hsc", CCMC: ccmc}, -1, H)
+	ccm.Register(w, vals, ccm.SC{ID: 12, Router: utils.VOTE_ROUTER, Wait: 1, Name: "dst", CCMC: []byte{2}}, -1, H)
 	msg := ccm.MsgBytes(ccm.Msg([]byte{1}, []byte{2}, []byte{3}, 12, make([]byte, 20), "m", nil))
-	f, _ := os.Create("/tmp/c25probe.prof")
-	pprof.StartCPUProfile(f)
-	pool := ccm.NewWorlds(1)
-	t0 := time.Now()
-	for i := 0; i < 200; i++ {
-		pool.With(d, func(w *ccm.W) {
-			t1 := time.Now()
-			tx := ccm.VoteImport(11, 7, msg, vals[i%4], uint32(i))
-			t2 := time.Now()
-			r := w.Exec(tx, 2, 1000)
-			t3 := time.Now()
-			_ = w.Dump()
-			if i < 3 {
-				fmt.Println(r.OK, r.Err, "tx", t2.Sub(t1), "exec", t3.Sub(t2), "dump", time.Since(t3))
-			}
-		})
+	msg2 := ccm.MsgBytes(ccm.Msg([]byte{1}, []byte{2}, []byte{3}, 12, make([]byte, 20), "m", []byte{9}))
+	st := ccm.NewEthState(ccmc, [][]byte{msg, msg2})
+	r := w.Exec(ccm.HscGenesisTx(11, st.Root, 1000, 1, polyenv.Multi(vals)), H-1, 1000)
+	fmt.Println("genesis below start:", r.OK, r.Err)
+	r = w.Exec(ccm.HscGenesisTx(11, st.Root, 1000, 1, polyenv.Single(vals[0])), H, 1000)
+	fmt.Println("genesis non-operator:", r.OK, r.Err)
+	r = w.Exec(ccm.HscGenesisTx(11, st.Root, 1000, 1, polyenv.Multi(vals)), H, 1000)
+	fmt.Println("genesis:", r.OK, r.Err)
+	rel := polyenv.Key(700)
+	r = w.Exec(ccm.HscImport(11, 1000, st.Proof(0, false), msg, rel, 1), H-1, 1000)
+	fmt.Println("import below start:", r.OK, r.Err)
+	r = w.Exec(ccm.HscImport(11, 1000, st.Proof(0, false), msg2, rel, 1), H, 1000)
+	fmt.Println("import wrong extra:", r.OK, r.Err)
+	r = w.Exec(ccm.HscImport(11, 1000, st.Proof(0, false), msg, rel, 1), H, 1000)
+	fmt.Println("import:", r.OK, r.Err, len(r.CrossHashes), len(r.WriteSet))
+	r = w.Exec(ccm.HscImport(11, 1000, st.Proof(0, true), msg, rel, 2), H, 1000)
+	fmt.Println("replay dup-node proof:", r.OK, r.Err)
+	r = w.Exec(ccm.HscImport(11, 1000, st.Proof(1, false), msg2, rel, 3), H, 1000)
+	fmt.Println("replay other slot same ccid:", r.OK, r.Err)
+	for n := 1; n <= 8; n++ {
+		v := polyenv.Keys(n)
+		polyenv.Setup(config.NETWORK_ID_MAIN_NET, v)
+		w := polyenv.NewWorld()
+		w.Genesis(v)
+		fmt.Println("mainnet genesis N", n, len(w.Dump()))
 	}
-	fmt.Println("per step", time.Since(t0)/200)
-	pprof.StopCPUProfile()
 }
